@@ -115,6 +115,16 @@ def check(case, ctx):
     elif S_ > 1:
         ctx.event("S>1")
 
+    if k == "se2":
+        # single-precision data seen earlier (a float32 log record) must not influence later double-precision results: the
+        # same heading first as np.float32, then - the identical value - as a Python float
+        th32 = float(np.float32(case["a"]["v"][2]))
+        _ = gs.PoseSE2([0.0, 0.0], np.float32(th32)), gs.PoseSE2([1.0, 2.0], np.float32(th32)) + b
+        a32 = gs.PoseSE2(list(case["a"]["v"][:2]), th32)
+        if _cmp_pose(ctx, "float32-call-influences-float64", "PoseSE2(x, float) after PoseSE2(x, np.float32) of the same value", k, a32, [case["a"]["v"][0], case["a"]["v"][1], th32], S_, 1, 1e-15 * (1 + abs(th32))):
+            return
+        if _cmp_pose(ctx, "float32-call-influences-float64", "a32+b after a float32 call", k, a32 + b, R.mul(k, gs.stored(a32), rb), S_, 2):
+            return
     a0, b0, c0, pt0 = gs.bits(a), gs.bits(b), gs.bits(c), gs.bits(pt)
 
     # ---- (+) is multiplication of homogeneous matrices ---------------------------------
@@ -156,7 +166,14 @@ def check(case, ctx):
         return
     if _cmp_pose(ctx, "inverse-law", "a.inverse+a", k, ai + a, ident, S_, 4):
         return
+    # identity() hands out an object the caller may edit (e.g. to build a pure translation): the next identity() is unaffected
+    scratch = cls.identity()
+    np.asarray(scratch)[0] = 1.25
+    if k in ("se2", "se3"):
+        np.asarray(scratch)[R.PDIM[k]] = 0.5
     e = cls.identity()
+    if e is scratch or np.shares_memory(np.asarray(e), np.asarray(scratch)):
+        return ctx.fail("identity-shared", "identity() returned an object sharing memory with the one returned before")
     if type(e) is not cls:
         return ctx.fail("type", "type(identity()) = %s" % type(e).__name__)
     if _cmp_pose(ctx, "identity", "identity()", k, e, ident, 0.0):
